@@ -25,12 +25,12 @@ pub open spec fn same_outcome<T>(r: Result<T>, err: Option<ErrorCode>, ok: spec_
     match r { Ok(v) => err is None && ok(v), Err(e) => err matches Some(c) && e == UnifiedError::Whirlpool(c) }
 }
 
-//@ fn pinocchio/ported/manager_liquidity_manager.rs pino_next_tick_modify_liquidity_update -> r tags=C12,C05,C07,C11 canary
+//@ fn pinocchio/ported/manager_liquidity_manager.rs pino_next_tick_modify_liquidity_update -> r tags=C12,C05,C07,C11,C01 canary
     ensures same_outcome(r, tick_modify_err(tick.view(), liquidity_delta as int, is_upper_tick),
         |u: TickUpdate| tick_modify_ok(tick.view(), tick_index as int, tick_current_index as int, fee_growth_global_a, fee_growth_global_b, |k: int| reward_growth_global[k], liquidity_delta as int, is_upper_tick, u.view())),
 //@ end
 
-//@ fn pinocchio/ported/manager_liquidity_manager.rs pino_next_fee_growths_inside -> r tags=C12,C07
+//@ fn pinocchio/ported/manager_liquidity_manager.rs pino_next_fee_growths_inside -> r tags=C12,C07,C01
     ensures
         r.0 == growth_inside(tick_current_index as int, tick_lower.view().initialized, tick_lower.view().fee_growth_outside_a, tick_lower_index as int,
                              tick_upper.view().initialized, tick_upper.view().fee_growth_outside_a, tick_upper_index as int, fee_growth_global_a),
@@ -38,7 +38,7 @@ pub open spec fn same_outcome<T>(r: Result<T>, err: Option<ErrorCode>, ok: spec_
                              tick_upper.view().initialized, tick_upper.view().fee_growth_outside_b, tick_upper_index as int, fee_growth_global_b),
 //@ end
 
-//@ fn pinocchio/ported/manager_liquidity_manager.rs pino_next_reward_growths_inside -> r tags=C12,C11
+//@ fn pinocchio/ported/manager_liquidity_manager.rs pino_next_reward_growths_inside -> r tags=C12,C11,C01
     ensures forall|k: int| 0 <= k < 3 ==> #[trigger] r[k] == (if reward_infos[k].view().is_init() {
             growth_inside(tick_current_index as int, tick_lower.view().initialized, tick_lower.view().reward_growths_outside[k], tick_lower_index as int,
                           tick_upper.view().initialized, tick_upper.view().reward_growths_outside[k], tick_upper_index as int, next_reward_growth_global[k]) } else { 0u128 }),
@@ -52,7 +52,7 @@ pub open spec fn same_outcome<T>(r: Result<T>, err: Option<ErrorCode>, ok: spec_
         decreases 3 - i_it,
 //@ end
 
-//@ fn pinocchio/ported/manager_liquidity_manager.rs pino_next_position_modify_liquidity_update -> r tags=C12,C05,C07,C11 canary
+//@ fn pinocchio/ported/manager_liquidity_manager.rs pino_next_position_modify_liquidity_update -> r tags=C12,C05,C07,C11,C01 canary
     ensures same_outcome(r, position_modify_err(position.view(), liquidity_delta as int),
         |u: PositionUpdate| position_modify_ok(position.view(), liquidity_delta as int, fee_growth_inside_a, fee_growth_inside_b, *reward_growths_inside, u)),
 //@ rewrite_enum_mut
@@ -71,7 +71,7 @@ pub open spec fn same_outcome<T>(r: Result<T>, err: Option<ErrorCode>, ok: spec_
     ensures r matches Ok(u) && modify_tick_array_spec(position.view().liquidity, position_update.liquidity, is_variable_size_tick_array, tick.view().initialized, tick_update.initialized, u),
 //@ end
 
-//@ fn pinocchio/ported/manager_liquidity_manager.rs pino_next_whirlpool_liquidity -> r tags=C12,C05 canary
+//@ fn pinocchio/ported/manager_liquidity_manager.rs pino_next_whirlpool_liquidity -> r tags=C12,C05,C01 canary
     ensures same_outcome(r,
         { let l = whirlpool.view().liquidity as int + liquidity_delta as int;
           if !(tick_lower_index <= whirlpool.view().tick_current_index < tick_upper_index) { None }
@@ -82,7 +82,7 @@ pub open spec fn same_outcome<T>(r: Result<T>, err: Option<ErrorCode>, ok: spec_
 /// same growth as the Anchor next_whirlpool_reward_infos under the reachable-state precondition "an uninitialized reward has zero emissions"
 /// (the port skips on emissions == 0 instead of testing the mint)
 //@ assume reachable-state: an uninitialized reward slot has emissions_per_second_x64 == 0 (set_reward_emissions requires an initialized reward)
-//@ fn pinocchio/ported/manager_liquidity_manager.rs pino_next_whirlpool_reward_growth_global -> r tags=C12,C11 canary
+//@ fn pinocchio/ported/manager_liquidity_manager.rs pino_next_whirlpool_reward_growth_global -> r tags=C12,C11,C01 canary
     requires forall|k: int| 0 <= k < 3 ==> (!(#[trigger] whirlpool.view().reward_infos[k]).is_init() ==> whirlpool.view().reward_infos[k].emissions_per_second_x64 == 0),
     ensures same_outcome(r,
         if (next_timestamp as int) < whirlpool.view().reward_last_updated_timestamp as int { Some(ErrorCode::InvalidTimestamp) } else { None },
@@ -105,7 +105,7 @@ pub open spec fn same_outcome<T>(r: Result<T>, err: Option<ErrorCode>, ok: spec_
             }
 //@ end
 
-//@ fn pinocchio/ported/manager_liquidity_manager.rs pino_calculate_liquidity_token_deltas -> r tags=C12,C08 canary
+//@ fn pinocchio/ported/manager_liquidity_manager.rs pino_calculate_liquidity_token_deltas -> r tags=C12,C08,C01 canary
     requires tick_ok(position.view().tick_lower_index as int), tick_ok(position.view().tick_upper_index as int), sqrt_price > 0,
     ensures
         liquidity_delta == 0 ==> r == perr::<(u64, u64)>(ErrorCode::LiquidityZero),
@@ -156,7 +156,7 @@ pub trait TickArray {
 }
 /// C05/C12: the update computed for a liquidity change is modify_liquidity_core evaluated on the pool, the position and the position's OWN two bound ticks,
 /// the lower one read from the lower array and the upper one from the upper array; a bound that is not a tick of its array is an error
-//@ fn pinocchio/ported/manager_liquidity_manager.rs pino_calculate_modify_liquidity -> r tags=C05,C12,C07,C11 canary
+//@ fn pinocchio/ported/manager_liquidity_manager.rs pino_calculate_modify_liquidity -> r tags=C05,C12,C07,C11,C01 canary
     requires forall|k: int| 0 <= k < 3 ==> (!(#[trigger] whirlpool.view().reward_infos[k]).is_init() ==> whirlpool.view().reward_infos[k].emissions_per_second_x64 == 0),
     ensures
         tick_array_lower.tick_at(position.view().tick_lower_index as int, whirlpool.view().tick_spacing as int) is None ==> r is Err,
@@ -174,7 +174,7 @@ pub open spec fn refresh_ok(w: Whirlpool, p: Position, tl: Tick, tu: Tick, lv: b
     exists|wl: u128, tlu: crate::state_core::TickUpdate, tuu: crate::state_core::TickUpdate, au: TickArrayUpdate, bu: TickArrayUpdate| #[trigger] refresh_core(w, p, tl, tu, lv, uv, ts, wl, tlu, tuu, g, pu, au, bu)
 }
 /// the fee/reward refresh is the same computation with a zero liquidity change
-//@ fn pinocchio/ported/manager_liquidity_manager.rs pino_calculate_fee_and_reward_growths -> r tags=C07,C11,C12 canary
+//@ fn pinocchio/ported/manager_liquidity_manager.rs pino_calculate_fee_and_reward_growths -> r tags=C07,C11,C12,C01 canary
     requires forall|k: int| 0 <= k < 3 ==> (!(#[trigger] whirlpool.view().reward_infos[k]).is_init() ==> whirlpool.view().reward_infos[k].emissions_per_second_x64 == 0),
     ensures
         r is Ok ==> tick_array_lower.tick_at(position.view().tick_lower_index as int, whirlpool.view().tick_spacing as int) is Some
@@ -191,7 +191,7 @@ pub open spec fn refresh_ok(w: Whirlpool, p: Position, tl: Tick, tu: Tick, lv: b
 //@ end
 /// C05/C12/C13: writing an update back: the position takes the position update, the lower bound tick (in the lower array) the lower tick update, the upper bound tick
 /// (in the upper array, or in the same array when both bounds share one) the upper tick update, the pool its liquidity / reward growths / timestamp; nothing else changes
-//@ fn pinocchio/ported/manager_liquidity_manager.rs pino_sync_modify_liquidity_values -> r tags=C05,C12,C13,C07,C11 canary
+//@ fn pinocchio/ported/manager_liquidity_manager.rs pino_sync_modify_liquidity_values -> r tags=C05,C12,C13,C07,C11,C01 canary
     requires old(position).view().tick_lower_index != old(position).view().tick_upper_index,
     ensures ({
         let p0 = old(position).view(); let sp = old(whirlpool).view().tick_spacing as int; let u = modify_liquidity_update;
